@@ -443,6 +443,16 @@ class SArr:
             return fresh_real("sum") if self.dtype != "int" else fresh_int("sum")
         raise Undecided("sum over a symbolic extent of a rank>1 array")
 
+    def mean(self, axis=None):
+        if axis is None and all(isinstance(conc(s_), int) for s_ in self.shape):
+            n = 1
+            for s_ in self.shape:
+                n *= conc(s_)
+            if n == 0:
+                raise Undecided("mean of an empty array")
+            return lift(self.sum()) / n
+        raise Undecided("mean over a symbolic extent")
+
     def min(self): return self._extreme("min")
     def max(self): return self._extreme("max")
 
